@@ -506,6 +506,50 @@ pub fn frontier_specs() -> Vec<Spec> {
     v
 }
 
+/// Dense sweeps of the dimensionless shape parameters of a move: the start and end speed as a
+/// fraction of the limit (steps of 1/32 over [-1, 1]) and the cruise distance in units of
+/// vmax^2/amax (2^(i/8) over 2^-5..2^5), pairwise, for three non-round (vmax, amax) pairs and both
+/// directions; the displacement is the acceleration + deceleration distance plus that cruise
+/// distance, so every profile is accepted by construction (up to rounding at the frontier).
+pub fn sweep_specs(thorough: bool) -> Vec<Spec> {
+    let mut v = Vec::new();
+    let fstep = if thorough { 64 } else { 32 };
+    let fr: Vec<f32> = (-fstep..=fstep).map(|i| i as f32 / fstep as f32).collect();
+    let per = if thorough { 16 } else { 8 };
+    let cr: Vec<f64> = (-5 * per..=5 * per).map(|i| (i as f64 / per as f64).exp2()).collect();
+    for &(vm, am) in &[(3.7f32, 1.9f32), (100.0, 50.0), (0.37, 9.0)] {
+        for dir in [1.0f64, -1.0] {
+            let mut push = |f0: f32, f1: f32, c: f64| {
+                // fractions are along the direction of travel
+                let (a0, a1) = (f0 as f64 * vm as f64, f1 as f64 * vm as f64);
+                let (vmx, amx) = (vm as f64, am as f64);
+                let dstar = (vmx * vmx - a0 * a0) / (2.0 * amx) + (vmx * vmx - a1 * a1) / (2.0 * amx);
+                let dp = dstar + c * vmx * vmx / amx;
+                let p0 = 12.5f32;
+                let p1 = (p0 as f64 + dir * dp) as f32;
+                if p1.abs() <= 1.0e4 {
+                    v.push(Spec { p0, v0: (a0 * dir) as f32, p1, v1: (a1 * dir) as f32, a1: 0.0, vmax: vm, amax: am });
+                }
+            };
+            for &f in &fr {
+                for &c in &cr {
+                    push(f, 0.0, c);
+                    push(f, 0.37, c);
+                    push(0.0, f, c);
+                    push(0.41, f, c);
+                }
+            }
+            for &f0 in &fr {
+                for &f1 in &fr {
+                    push(f0, f1, 0.37);
+                    push(f0, f1, 2.9);
+                }
+            }
+        }
+    }
+    v
+}
+
 pub fn run(ctx: &Ctx, second: bool) -> Vec<Eng> {
     let budget = Budget::secs(if ctx.thorough { 2000 } else { 120 });
     let mut all = specs(ctx.thorough);
@@ -523,7 +567,8 @@ pub fn run(ctx: &Ctx, second: bool) -> Vec<Eng> {
             "",
         )
     };
-    e.bounds = format!("{} constructor calls ({} of them placed on both sides of the acceptance frontier: near-triangular moves)", all.len(), nf);
+    let ns = { let f = sweep_specs(ctx.thorough); let n = f.len(); all.extend(f); n };
+    e.bounds = format!("{} constructor calls ({} of them placed on both sides of the acceptance frontier: near-triangular moves; {} of them dense pairwise sweeps of start-speed fraction, end-speed fraction (steps of 1/32) and cruise distance / (vmax^2/amax) (2^(i/8) over 2^-5..2^5) for three non-round limit pairs and both directions)", all.len(), nf, ns);
     par_cases(&mut e, &all, budget, |s, e| {
         e.executions += 1;
         e.states += 1;
